@@ -1,4 +1,5 @@
 import LyModel.Yin.Ok
+import LyModel.Yin.Strict
 /-! driver ops of component `yin` (same ops as `harness/wb_yin.c`)
 
 Tree syntax (no blanks): statement `S<name>:<N|E|K<keyword>>:<arg|N>:<flags>{<statements>}`, extension instance
@@ -144,6 +145,28 @@ def handle (op : String) (args : List String) : String :=
           | .ok (a, l') => "ok " ++ Hex.enc n ++ " " ++ (match a with | some a => Hex.enc a | none => "N") ++ " " ++ serList l'
           | .error _ => "err Resolve"
     | _, _ => "err BadArg"
+  | "parseclosed", [h] =>
+    -- model only: does `yin_parse_extension_instance` succeed AND leave the lexer behind the end tag of the instance (the state
+    -- the enclosing `yin_parse_content` needs to go on)?
+    match Hex.dec h with
+    | some s =>
+      match ctxNew (cstr s) with
+      | .error e => "err " ++ e.name
+      | .ok cx =>
+        if cx.status != .element then "err Valid" else
+        match parseExtInst cx with
+        | .error e => "err " ++ e.name
+        | .ok (c, _, _) => "ok " ++ (if c.status = .elemClose ∧ c.elems.isEmpty then "1" else "0")
+    | none => "err BadHex"
+  | "strict", [h] =>
+    -- model only: the strict YIN grammar on the element tree the independent XML reader reports
+    match Hex.dec h with
+    | some s =>
+      match strictDoc (cstr s) with
+      | none => "err NotXml"
+      | some none => "ok in"
+      | some (some w) => "ok out " ++ w
+    | none => "err BadHex"
   | "yinok", [t] =>
     -- model only: `yinOkList` / `extOk` under the namespaces the check declares on the start tag
     match stmtsOf t with
